@@ -129,6 +129,11 @@ fn worker(prop: &str, tier: &str, seed: u64, start: u64, stride: u64, count: u64
         decisions += r.decisions;
         sim_ms += r.sim_ms;
         let h = rng::fnv1a(r.trace.join("\n").as_bytes());
+        if let Ok(want) = std::env::var("XS_SIM_DUMP_TRACE") {
+            if want == idx.to_string() {
+                let _ = std::fs::write(format!("/tmp/trace-{}-{}-{}.txt", idx, stride, std::process::id()), r.trace.join("\n"));
+            }
+        }
         all_hashes.push((idx, h));
         if props::is_nontrivial(spec, &r.probes) {
             hashes.push(h);
